@@ -163,11 +163,12 @@ def opEncframe (f : Fields) (impl : Fields) (implHead : String) (profile : Profi
           | .fixed _ _ r => zeroRes r || small q.1 q.2
           | .lpc _ _ _ _ _ r => zeroRes r || small q.1 q.2
         if (List.zip pr.frame.subs (List.range pr.frame.subs.length)).all okSub then "ok" else "FAIL constant-block-subframe-grows-with-length"
-    -- a mono frame written as a FIXED subframe is the output of `encode_fixed_subframe`: its order and residuals must be the
-    -- ones `Model/FixedPick.lean` (`fixedPick`, the subject of `C19.constant_block_fixed_zero`) computes from the wasted-bit-shifted channel
-    let verdict := if verdict != "ok" || ch != 1 then verdict else
+    -- a mono frame of equal non-zero samples written as a FIXED subframe is the output of `encode_fixed_subframe`: its order and residuals are compared with the
+    -- ones `Model/FixedPick.lean` (`fixedPick`, the subject of `C19.constant_block_fixed_zero`) computes from the wasted-bit-shifted channel.
+    -- This is model-vs-code correspondence, not a property verdict: a different (still lossless) choice is a disagreement, not a violation.
+    let fixedpick : String := if ch != 1 then "ok" else
       match parseFrame decLayout true none bytes with
-      | .error _ => verdict
+      | .error _ => "ok"
       | .ok pr =>
         match pr.frame.subs with
         | [sub] =>
@@ -175,14 +176,17 @@ def opEncframe (f : Fields) (impl : Fields) (implHead : String) (profile : Profi
            | .fixed o _ r =>
              let vals := r.parts.flatMap fun pt => match pt with
                | .rice _ rs => rs | .escaped _ rs => rs | .zero n => List.replicate n 0
-             let pick := fixedPick (pcm.map fun x => x / (2 : Int) ^ sub.wasted)
-             if pick.1 == o && pick.2 == vals then "ok"
-             else s!"FAIL fixed-subframe-not-as-modelled order={o} modelled={pick.1}"
-           | _ => verdict)
-        | _ => verdict
+             let chan := pcm.map fun x => x / (2 : Int) ^ sub.wasted
+             -- only on the domain of the theorem (a constant non-zero channel of at least two samples): elsewhere the choice among
+             -- the FIXED orders is a heuristic that no property constrains
+             if !(chan.length ≥ 2 && chan.all (· == chan.headD 0) && chan.headD 0 != 0) then "ok" else
+             let pick := fixedPick chan
+             if pick.1 == o && pick.2 == vals then "ok" else s!"order{o}-modelled{pick.1}"
+           | _ => "ok")
+        | _ => "ok"
     -- the crate-decoder model on the same bytes (ties Model/Decode to the spec on real output)
     let m := match decodeFrame profile none bytes with
-      | .ok d => s!"ok dec={joinInts (interleave d.channels)}"
+      | .ok d => s!"ok dec={joinInts (interleave d.channels)} fixedpick={fixedpick}"
       | .error e => failStr e
     s!"{m} @@ {verdict}"
 
